@@ -17,7 +17,8 @@ META = dict(
               "followed by every operation sequence of length <= 2 over 20 operations (assign/clear atnums (2 and 3 "
               "atoms), atcorenums (2/3), charge, nelec, spinpol, mo, atcoords (None/2/3 atoms); read charge; read all), and from three starting points over all 28 "
               "operations (adds atmasses, atgradient, atfrozen of 2/3 atoms, read atcorenums, read natom, clear spinpol); all "
-              "real values of charge, nelec, spinpol, core charges and orbital occupations",
+              "real values of charge, nelec, spinpol, core charges and orbital occupations; clearing (None) reads back as None "
+              "when no orbitals decide",
         thorough="all 128 construction subsets followed by every operation sequence of length <= 3 over the 20 operations of "
                  "the quick tier; from the 14 construction subsets of the quick tier every sequence of length <= 3 over all 28 "
                  "operations (adds atmasses, atgradient, atfrozen of 2/3 atoms, read atcorenums, read natom, clear spinpol)"),
@@ -279,6 +280,11 @@ def h_history(ctx, ctor=(), depth=2, ops="quick", twin=False, op0=None):
                 got = getattr(d, attr)
                 ctx.oblige(f"assign-{attr}:reads-back", (got is not None) and ctx.eq(got, val + (1.0 if twin else 0.0)),
                            cls=cls)
+            if attr in ("charge", "nelec", "spinpol") and val is None and spec.mo is None:
+                # clearing is an assignment as well (the value alphabet of the statement includes None): without orbitals, which
+                # would decide the electron count, the cleared quantity reads back as None
+                got = getattr(d, attr)
+                ctx.oblige(f"assign-{attr}:reads-back", got is None, cls=cls, detail=f"reads {got!r} after the assignment of None")
 
         # ---- final full observation: the stated invariants
         o1 = observe(d, ctx)
